@@ -32,3 +32,16 @@ Example C06_example :
   scopes [] ex_doc = [(0, []); (1, [(7, 1)%N]); (2, [(7, 1); (8, 2)]%N); (3, [])] /\
   map (fun t => match t with DNode id _ _ => id end) (chunks 1 0 (cevents ex_doc)) = [1; 3].
 Proof. vm_compute. split; reflexivity. Qed.
+
+(* an element processed on its own (a chunk of a lazy resource, a path selection) gets the namespace map that the
+   loaded tree reports for it: the root's declarations, those of the intermediate ancestors and its own *)
+Theorem C06_chunk_scope : forall t a m, scope_at [] t a = Some m -> scope_chunk t a = m.
+Proof. exact scope_chunk_is_scope. Qed.
+Print Assumptions C06_chunk_scope.
+
+(* with the root's and the element's own declarations only (the code before repo fix 78d8359) a prefix declared on an
+   intermediate ancestor is lost *)
+Theorem C06_chunk_scope_old_refuted :
+  exists t a p, (exists m, scope_at [] t a = Some m /\ ns_get m p <> None) /\ ns_get (scope_chunk_old t a) p = None.
+Proof. exact scope_chunk_old_refuted. Qed.
+Print Assumptions C06_chunk_scope_old_refuted.
